@@ -104,7 +104,7 @@ func vC11Call(k int, idx string) func() string {
 			}
 			return vErrText(VarForFn("v"+s, fn))
 		}
-	default:
+	case 13:
 		s := vPlainText("u"+idx, 1)
 		return func() string {
 			fn := func(errBuf *strings.Builder, validName, objName, fieldName string, tv reflect.Value) {
@@ -112,10 +112,32 @@ func vC11Call(k int, idx string) func() string {
 			}
 			return vErrText(UrlForFn("h?k="+s, "mine", fn))
 		}
+	case 14: // rules with arguments: custom separators, options, patterns
+		s := vStr("d" + idx)
+		return func() string {
+			return vErrText(Var("2024/02/29 10.05.5"+s, "datetime='/, ,.'", "in=(a/b)|not in", "re='^2'"))
+		}
+	case 15:
+		s := vStr("d" + idx)
+		return func() string {
+			return vErrText(Struct(&vP7{T: "2024-02-29 10:05:5" + s, D: "2024-02-29", I: "1,2" + s, Y: "2024-02"}))
+		}
+	default:
+		s := vStr("d" + idx)
+		return func() string {
+			return vErrText(Map(map[string]string{"t": "2024-02-29T10:05:5" + s, "i": "1-2"}, NewRule().Set("t", "datetime='-,T'").Set("i", "ints='-'", "date='.'")))
+		}
 	}
 }
 
-const vC11NCalls = 14
+type vP7 struct {
+	T string `valid:"datetime"`
+	D string `valid:"date,year2month='-'"`
+	I string `valid:"ints,unique"`
+	Y string `valid:"year2month"`
+}
+
+const vC11NCalls = 17
 
 func vC11Two(ka, kb int) {
 	c1 := vC11Call(ka, "a")
@@ -159,6 +181,9 @@ func H_C11_varfn_varfn()        { vC11Two(12, 12) }
 func H_C11_varfn_var()          { vC11Two(12, 4) }
 func H_C11_urlfn_url()          { vC11Two(13, 6) }
 func H_C11_my_struct()          { vC11Two(10, 0) }
+func H_C11_args_default()       { vC11Two(14, 15) }
+func H_C11_args_args()          { vC11Two(14, 16) }
+func H_C11T_default_map()       { vC11Two(15, 16) }
 func H_C11T_urlfn_urlfn()       { vC11Two(13, 13) }
 func H_C11T_mapfn_map()         { vC11Two(11, 5) }
 func H_C11T_my_my()             { vC11Two(10, 10) }
